@@ -78,6 +78,12 @@ type Rule struct {
 	Min   int      // vacuity guard: fewer obligations than this => undecided
 	Doc   string   // the rule applied, in one or two sentences
 	Run   func(c *Ctx, r *R)
+	// SubsumedBy names an E rule that decides, by exhaustive evaluation, everything the obligations selected by
+	// SubsumeKey (all of them when nil) are sufficient conditions for: when such an obligation is not discharged - the
+	// shape the rule reads is not there - and that E rule is clean on this tree, the obligation is recorded as decided by
+	// the evaluation, and a shortfall against Min is not counted as vacuity (see subsume.go)
+	SubsumedBy string
+	SubsumeKey func(key string) bool
 }
 
 var rules []*Rule
@@ -135,6 +141,27 @@ func runRule(c *Ctx, rule *Rule) (res ruleResult) {
 		if e := recover(); e != nil {
 			res.err = fmt.Sprintf("rule %s panicked: %v", rule.ID, e)
 			r.undecided("checker-panic", "-", res.err)
+		}
+		if rule.SubsumedBy != "" {
+			pending := false
+			for _, o := range r.obs {
+				if o.status != Discharged && (rule.SubsumeKey == nil || rule.SubsumeKey(strings.TrimPrefix(o.Key, rule.ID+":"))) {
+					pending = true
+				}
+			}
+			if (pending || len(r.obs) < rule.Min) && c.eClean(rule.SubsumedBy) {
+				for _, o := range r.obs {
+					if o.status != Discharged && (rule.SubsumeKey == nil || rule.SubsumeKey(strings.TrimPrefix(o.Key, rule.ID+":"))) {
+						o.status, o.Status = Discharged, Discharged.String()
+						o.Detail = subsumedBy(rule.SubsumedBy) + " [was: " + o.Detail + "]"
+					}
+				}
+				if len(r.obs) < rule.Min {
+					r.ok("coverage", "-", fmt.Sprintf("%d obligations found where %d were confirmed on the pinned tree: the code was restructured; ", len(r.obs), rule.Min)+subsumedBy(rule.SubsumedBy))
+					res.obs, res.info = r.obs, r.info
+					return
+				}
+			}
 		}
 		if len(r.obs) < rule.Min {
 			r.undecided("vacuity", "-", fmt.Sprintf("rule matched %d instances, fewer than the %d confirmed by hand on the pinned tree: anchors lost, the rule would pass vacuously", len(r.obs), rule.Min))
